@@ -139,7 +139,7 @@ def check(pid, tier, replay=None):
             cap = 1500
         if len(behs) > cap:
             keep = lambda b: (b["mode"] in ("prim", "fuzz", "foreign") or b.get("present") in ("only", "defaults", "deepest")   # noqa: E731  systematic cases
-                              or any(m["tag"] < 0 for m in b.get("members") or []))
+                              or any(m["tag"] < 0 or m["kind"] in ("strplain", "slicestr") for m in b.get("members") or []))
             prim = [b for b in behs if keep(b)]
             rest = [b for b in behs if not keep(b)]
             rnd.shuffle(rest)
